@@ -71,8 +71,8 @@ CHECKS = [
         'contract-based deductive verification: sidecar contracts on the real functions, ast->z3 VC generation on the real source (re-read every run), external z3 portfolio + engine B + bounded run-time oracles',
         'DESIGN.md C03'),
     chk('C06', 'other',
-        'Engine A + z3 (NRA) prove on the real _dual_bootstrap (per entry, np.maximum/minimum element-wise) for ALL real variances and counts > 1: result <= two-factor variance, >= each (corrected) single-factor variance that is itself below it, >= 0; _correct_1d applies exactly n/(n-1) with n = min / the one given / none. Lemma layer: two-sided t p-values lie in [0,1], are symmetric with unit diagonal and monotone in |t| over the assumed cdf contract; bootstrap pair p in [1/N,1]. Classical t identities for eval_fixed, contrasts, NaN-aware means, rank-sum / bootstrap tests, equivariance: bounded oracle tier.',
-        'scipy.stats.t.cdf assumed monotone with cdf(0)=1/2; extract_variances contrast slicing decided by the bounded tier',
+        'Engine A + z3 (NRA) prove on the real _dual_bootstrap (per entry, np.maximum/minimum element-wise) for ALL real variances and counts > 1: result <= two-factor variance, >= each (corrected) single-factor variance that is itself below it, >= 0; _correct_1d applies exactly n/(n-1) with n = min / the one given / none. Engine B runs the real extract_variances (with pairwise_contrast and _correct_1d) on SYMBOLIC variance vectors / covariance matrices (2-4 models, with / without ceiling columns, 5 count settings) and proves for all real entries: model variance = diagonal, pair variance = var_i + var_j - 2 cov_ij in pairwise-contrast order, model-vs-ceiling variance = var_i + var_nc - 2 cov_i,nc, each times n/(n-1). Lemma layer: two-sided t p-values lie in [0,1], are symmetric with unit diagonal and monotone in |t| over the assumed cdf contract; bootstrap pair p in [1/N,1]. Classical t identities for eval_fixed, NaN-aware means, rank-sum / bootstrap tests, equivariance: bounded oracle tier.',
+        'scipy.stats.t.cdf assumed monotone with cdf(0)=1/2; the 3-D (dual bootstrap) branch of extract_variances is decided by the bounded tier; engine-B proxy overrides in evidence',
         'contract-based deductive verification: sidecar contracts on the real functions, ast->z3 VC generation on the real source (re-read every run), external z3 portfolio + z3 lemma layer + bounded run-time oracles',
         'DESIGN.md C06'),
     chk('C07', 'other',
@@ -96,8 +96,8 @@ CHECKS = [
         'contract-based deductive verification: ast->z3 VC generation on the real selection helpers and RDMs.subset (filter summaries of conditional loops), z3 lemma layer, + model-based bounded histories',
         'DESIGN.md C10'),
     chk('C11', 'other',
-        'Engine A proves for all inputs that Dataset/TemporalDataset.sort_by gather the measurement rows and every obs descriptor by ONE stable argsort of the key and leave the other descriptors alone, and that subset_obs / subset_channel select measurements and the matching descriptors by ONE descriptor selection and pass the rest through. Splits, merges, binning, conversions, DataFrame round trip, histories against an abstract view with ghost ids: bounded oracle tier.',
-        'num_index / subset_descriptor uninterpreted at these call sites (their bodies are under contract in C10); argsort(kind=stable) assumed; 3 open findings',
+        'Engine A proves for all inputs that Dataset/TemporalDataset.sort_by gather the measurement rows and every obs descriptor by ONE stable argsort of the key and leave the other descriptors alone, that subset_obs / subset_channel select measurements and the matching descriptors by ONE descriptor selection and pass the rest through, and that split_obs / split_channel (both classes) and split_time return one part per distinct value, part p holding exactly the items whose value is the p-th distinct value, each once, in original order (so the parts PARTITION the split axis), measurements and the split descriptors gathered by that one selection, everything else passed through. Merges, binning, conversions, DataFrame round trip, histories against an abstract view with ghost ids: bounded oracle tier.',
+        'num_index / subset_descriptor uninterpreted at these call sites (their bodies are under contract in C10); argsort(kind=stable) assumed; get_unique_inverse / get_unique_unsorted modelled as (distinct values in order of first appearance, position of each value) -- bounded oracle K8; all findings repaired',
         'contract-based deductive verification: sidecar contracts on the real functions, ast->z3 VC generation on the real source (re-read every run), external z3 portfolio + model-based bounded histories',
         'DESIGN.md C11'),
     chk('C12', 'other',
@@ -106,7 +106,7 @@ CHECKS = [
         'static frame/alias analysis on the real source (frame conditions) + bounded fingerprint oracles over the introspected API',
         'DESIGN.md C12'),
     chk('C13', 'other',
-        'Engine A proves for all inputs that both NaN parsers (_parse_nan_vectors, compare._parse_input_rdms; arrays and RDMs) return normally ONLY if every row of both inputs has the mask of row 0 of the first, select by that mask, and raise ValueError otherwise. Entry-deleted equality for every measure and sigma_k, pooling, noise ceilings, regression, RDMs.mean weights, rescale: bounded oracle tier.',
+        'Engine A proves for all inputs that both NaN parsers (_parse_nan_vectors, compare._parse_input_rdms; arrays and RDMs) return normally ONLY if every row of both inputs has the mask of row 0 of the first, select by that mask, and raise ValueError otherwise. Engine B runs the real combine._mean on symbolic dissimilarities and symbolic positive weights with EVERY subset of RDMs missing for some pair (stacks of 2-3 RDMs; unweighted, one weight per RDM as array or descriptor name, one weight per entry) and proves for all real values: mean_j = sum over available r of w_rj x_rj / sum over available r of w_rj, NaN exactly where no RDM has a value, the weights of the caller untouched. Entry-deleted equality for every measure and sigma_k, pooling, noise ceilings, regression, rescale: bounded oracle tier.',
         'np.isnan / np.all uninterpreted; conjugate-gradient tolerance 1e-4 for whitened measures; 1 open finding (rescale default threshold)',
         'contract-based deductive verification: sidecar contracts on the real functions, ast->z3 VC generation on the real source (re-read every run), external z3 portfolio + bounded run-time oracles',
         'DESIGN.md C13'),
